@@ -57,6 +57,26 @@ func TrimRightSpaceLength
   loop 0 inv forall k int :: i < k && k < l ==> isSpace(source[k])
   loop 0 dec i + 1
 
+// ---- global facts established by the package initialiser and never written afterwards ----
+axiom htmlEscapeTableFacts:
+  (forall c int :: 0 <= c && c < 256 ==> ((htmlEscapeTable[c] != nil) <==> needsHTMLEscape(c))) &&
+  isQuot(*htmlEscapeTable['"']) && isAmp(*htmlEscapeTable['&']) && isLt(*htmlEscapeTable['<']) && isGt(*htmlEscapeTable['>'])
+
+macro isQuot(s) = len(s) == 6 && s[0] == '&' && s[1] == 'q' && s[2] == 'u' && s[3] == 'o' && s[4] == 't' && s[5] == ';'
+macro isAmp(s)  = len(s) == 5 && s[0] == '&' && s[1] == 'a' && s[2] == 'm' && s[3] == 'p' && s[4] == ';'
+macro isLt(s)   = len(s) == 4 && s[0] == '&' && s[1] == 'l' && s[2] == 't' && s[3] == ';'
+macro isGt(s)   = len(s) == 4 && s[0] == '&' && s[1] == 'g' && s[2] == 't' && s[3] == ';'
+
+// refAt(b,k): a complete &quot; &amp; &lt; &gt; reference starts at b[k]
+macro refAt(b, k) =
+  (k+5 < len(b) && b[k+1] == 'q' && b[k+2] == 'u' && b[k+3] == 'o' && b[k+4] == 't' && b[k+5] == ';') ||
+  (k+4 < len(b) && b[k+1] == 'a' && b[k+2] == 'm' && b[k+3] == 'p' && b[k+4] == ';') ||
+  (k+3 < len(b) && b[k+1] == 'l' && b[k+2] == 't' && b[k+3] == ';') ||
+  (k+3 < len(b) && b[k+1] == 'g' && b[k+2] == 't' && b[k+3] == ';')
+// inert(b): no raw < > " and every & heads one of the four references
+macro inert(b) = forall k int {b[k]} :: 0 <= k && k < len(b) ==>
+  (b[k] != '<' && b[k] != '>' && b[k] != '"' && (b[k] == '&' ==> refAt(b, k)))
+
 func NewCopyOnWriteBuffer
   ensures sameslice(result.buffer, buffer) && !result.copied
   modifies nothing
@@ -69,22 +89,87 @@ func (*CopyOnWriteBuffer).Bytes
   modifies nothing
 
 func (*CopyOnWriteBuffer).Write
-  ensures b.copied
+  requires b.copied ==> owned(b.buffer)
+  ensures b.copied && owned(b.buffer)
   ensures old(b.copied) ==> len(b.buffer) == old(len(b.buffer)) + len(value)
   ensures !old(b.copied) ==> len(b.buffer) == len(value)
-  ensures old(b.copied) ==> (forall k int :: 0 <= k && k < old(len(b.buffer)) ==> b.buffer[k] == old(b.buffer[k]))
-  ensures forall k int :: 0 <= k && k < len(value) ==> b.buffer[len(b.buffer)-len(value)+k] == old(value[k])
+  ensures old(b.copied) ==> (forall k int {b.buffer[k]} :: 0 <= k && k < old(len(b.buffer)) ==> b.buffer[k] == old(b.buffer[k]))
+  ensures forall k int {b.buffer[k]} :: len(b.buffer)-len(value) <= k && k < len(b.buffer) ==> b.buffer[k] == old(value[k-(now(len(b.buffer))-len(value))])
   ensures fresh(b.buffer) || (old(b.copied) && arrof(b.buffer) == old(arrof(b.buffer)))
-  ensures !old(b.copied) ==> samecontents(old(b.buffer))
   modifies b.buffer, b.copied, contents(b.buffer)
 
 func (*CopyOnWriteBuffer).WriteByte
-  ensures b.copied
+  requires b.copied ==> owned(b.buffer)
+  ensures b.copied && owned(b.buffer)
   ensures old(b.copied) ==> len(b.buffer) == old(len(b.buffer)) + 1
   ensures !old(b.copied) ==> len(b.buffer) == 1
-  ensures old(b.copied) ==> (forall k int :: 0 <= k && k < old(len(b.buffer)) ==> b.buffer[k] == old(b.buffer[k]))
+  ensures old(b.copied) ==> (forall k int {b.buffer[k]} :: 0 <= k && k < old(len(b.buffer)) ==> b.buffer[k] == old(b.buffer[k]))
   ensures b.buffer[len(b.buffer)-1] == c
   ensures fresh(b.buffer) || (old(b.copied) && arrof(b.buffer) == old(arrof(b.buffer)))
-  ensures !old(b.copied) ==> samecontents(old(b.buffer))
+  ensures result == nil
   modifies b.buffer, b.copied, contents(b.buffer)
+
+func EscapeHTML
+  uses htmlEscapeTableFacts
+  ensures inert(result)
+  ensures (forall k int :: 0 <= k && k < len(v) ==> !needsHTMLEscape(v[k])) ==> sameslice(result, v)
+  ensures fresh(result) || sameslice(result, v)
+  modifies nothing
+  loop 0 inv 0 <= n && n <= i && i <= len(v)
+  loop 0 inv !cob.copied ==> (n == 0 && sameslice(cob.buffer, v))
+  loop 0 inv cob.copied ==> (fresh(cob.buffer) && inert(cob.buffer))
+  loop 0 inv forall k int :: n <= k && k < i ==> !needsHTMLEscape(v[k])
+  loop 0 inv cob.copied ==> (exists k int :: 0 <= k && k < i && needsHTMLEscape(v[k]))
+  loop 0 dec len(v) - i
+
+// ---- URLEscape (C19, C04) ----
+axiom htmlSpaceFacts: len(htmlSpace) == 3 && htmlSpace[0] == '%' && htmlSpace[1] == '2' && htmlSpace[2] == '0'
+
+fun okURLByte(c int) bool = c > 32 && c != 127 && c != '"' && c != '<' && c != '>'
+fun isUpperHex(c int) bool = c >= '0' && c <= '9' || c >= 'A' && c <= 'F'
+fun qeByte(c int) bool = c >= 'a' && c <= 'z' || c >= 'A' && c <= 'Z' || c >= '0' && c <= '9' || c == '-' || c == '_' || c == '.' || c == '~' || c == '+' || c == '%'
+macro okURL(b) = forall k int :: 0 <= k && k < len(b) ==> okURLByte(b[k])
+macro pctOK(b) = forall k int :: 0 <= k && k < len(b) ==> (b[k] == '%' ==> (k+2 < len(b) && isHex(b[k+1]) && isHex(b[k+2])))
+// passes(b,k): URLEscape copies b[k] unchanged
+macro passes0(b, k) = urlEscapeTable[b[k]] == 1 || utf8lenTable[b[k]] == 99 || (b[k] == '%' && k+2 < len(b) && isHex(b[k+1]) && isHex(b[k+2]))
+macro passes(b, k) = passes0(b, k) || (len(b) == 1 && utf8lenTable[b[k]] >= 2 && utf8lenTable[b[k]] <= 4)
+macro stable0(b) = forall k int :: 0 <= k && k < len(b) ==> passes0(b, k)
+macro stableURL(b) = forall k int :: 0 <= k && k < len(b) ==> passes(b, k)
+
+// trusted library contract: net/url.QueryEscape (Go standard library, not verified here)
+func url.QueryEscape
+  trusted
+  ensures len(result) >= len(s)
+  ensures forall k int :: 0 <= k && k < len(result) ==> qeByte(result[k])
+  ensures forall k int :: 0 <= k && k < len(result) ==> (result[k] == '%' ==> (k+2 < len(result) && isUpperHex(result[k+1]) && isUpperHex(result[k+2])))
+  modifies nothing
+
+// unsafe aliasing conversions (util_unsafe_go121.go): trusted to alias and never write
+func StringToReadOnlyBytes
+  trusted
+  ensures arrof(result) == arrof(s) && offof(result) == offof(s) && len(result) == len(s) && cap(result) == len(s)
+  modifies nothing
+func BytesToReadOnlyString
+  trusted
+  ensures arrof(result) == arrof(b) && offof(result) == offof(b) && len(result) == len(b)
+  modifies nothing
+
+func URLEscape
+  uses htmlSpaceFacts
+  requires !resolveReference
+  ensures [okURL] okURL(result)
+  ensures [pctOK] pctOK(result)
+  ensures [stable] stableURL(result)
+  ensures [idem] stableURL(v) ==> sameslice(result, v)
+  ensures fresh(result) || sameslice(result, v)
+  modifies nothing
+  loop 0 inv 0 <= n && n <= i && i <= limit && limit == len(v)
+  loop 0 inv !cob.copied ==> sameslice(cob.buffer, v)
+  loop 0 inv [bufOK] cob.copied ==> (fresh(cob.buffer) && okURL(cob.buffer) && pctOK(cob.buffer) && stable0(cob.buffer))
+  loop 0 inv [pendOK] forall k int :: n <= k && k < i ==> okURLByte(v[k])
+  loop 0 inv [pendPct] forall k int :: n <= k && k < i ==> (v[k] == '%' ==> (k+2 < i && isHex(v[k+1]) && isHex(v[k+2])))
+  loop 0 inv [pendPass] forall k int :: n <= k && k < i ==> (urlEscapeTable[v[k]] == 1 || utf8lenTable[v[k]] == 99 || (v[k] == '%' && k+2 < i && isHex(v[k+1]) && isHex(v[k+2])))
+  loop 0 inv [headOK] (!cob.copied && n > 0) ==> (n == 1 && len(v) == 1 && utf8lenTable[v[0]] >= 2 && utf8lenTable[v[0]] <= 4)
+  loop 0 inv [copiedWhy] cob.copied ==> (exists k int :: 0 <= k && k < i && !passes(v, k))
+  loop 0 dec limit - i
 @*/
